@@ -403,6 +403,53 @@ class TRaw:
         return p
 
 
+class TRawW(TRaw):
+    """Real OS file object handed to the proxy as `file_like` (np.memmap succeeds on it).  `write` is defined
+    explicitly because `Opener` recognises file objects with a runtime-checkable protocol (read + write)."""
+
+    def write(self, b):
+        raise io.UnsupportedOperation('write')
+
+
+class TMin:
+    """Tracing minimal file-like: only read/write/seek/tell — no `fileno` (np.memmap raises AttributeError)
+    and no `readinto` (array_from_file takes its `read` + copy branch)."""
+
+    def __init__(self, buf, hid):
+        self._b = io.BytesIO(buf)
+        self.hid = hid
+
+    def write(self, b):
+        raise io.UnsupportedOperation('write')
+
+    def seek(self, o, w=0):
+        S, t = _cur()
+        if t is None:
+            return self._b.seek(o, w)
+        S.point(t, ('seek',))
+        r = self._b.seek(o, w)
+        S.log(t, _seek_tok(self.hid, o, w))
+        return r
+
+    def read(self, n=-1):
+        S, t = _cur()
+        if t is None:
+            return self._b.read(n)
+        S.point(t, ('read',))
+        d = self._b.read(n)
+        S.log(t, 'R%d:%d:%d:%d' % (self.hid, n, len(d), hash_list(d)))
+        return d
+
+    def tell(self):
+        S, t = _cur()
+        if t is None:
+            return self._b.tell()
+        S.point(t, ('tell',))
+        p = self._b.tell()
+        S.log(t, 't%d=%d' % (self.hid, p))
+        return p
+
+
 def _make_instrumented():
     """Classes depending on nibabel (imported lazily so that NIBABEL_REPO is honoured)."""
     import nibabel.arrayproxy as ap
@@ -494,6 +541,41 @@ def fmt_res(arr, order):
     return ('ok%s#%d:%d' % (list(arr.shape), len(el), hash_list(el))).replace(', ', ',')
 
 
+def topo_of(d):
+    """derivation history of further proxies: ['c', src] copy(), ['u', src] copy.copy() (= __setstate__),
+    ['r', src, shape] reshape().  Old-format data: one copy() of the original in the handle scenario."""
+    if 'topo' in d:
+        return d['topo']
+    return [['c', 0]] if d['scn'].startswith('fh') else []
+
+
+def who_of(r):
+    w = r['who']
+    return {'p': 0, 'c': 1}.get(w, w)
+
+
+def proxy_shapes(d):
+    shapes = [list(d['shape'])]
+    for op in topo_of(d):
+        shapes.append(list(op[2]) if op[0] == 'r' else shapes[op[1]])
+    return shapes
+
+
+def families(d):
+    """proxies connected by copy() edges over a shared handle (independent of the model: union-find)"""
+    topo = topo_of(d)
+    par = list(range(len(topo) + 1))
+
+    def find(x):
+        while par[x] != x:
+            x = par[x]
+        return x
+    for k, op in enumerate(topo):
+        if op[0] == 'c' and d['scn'].startswith('fh'):
+            par[find(k + 1)] = find(op[1])
+    return [find(i) for i in range(len(par))]
+
+
 def idx_of(r):
     return None if r['idx'] == 'W' else tuple(item_from_data(i) for i in r['idx'])
 
@@ -520,28 +602,57 @@ def run_real(d, prefix):
         ap.RLock = TLock
         ap.openers = shim
         spec = (tuple(d['shape']), dtype_of(d['isz']), d['off'])
-        if d['scn'] == 'fh':
-            f = TFile(buf)
-            f.hid = S.nhandles
+        opened = []
+        if d['scn'].startswith('fh'):
+            hid = S.nhandles
             S.nhandles += 1
-            proxy = TProxy(f, spec, mmap=bool(d['mmap']), order=order)
-            cp = proxy.copy()
-            info['shares'] = cp._lock is proxy._lock
-            info['copy_fh_same'] = cp.file_like is proxy.file_like
-            proxies = {'p': proxy, 'c': cp}
+            if d['scn'] == 'fh':
+                f = TFile(buf)
+                f.hid = hid
+            elif d['scn'] == 'fhmin':
+                f = TMin(buf, hid)
+            elif d['scn'] == 'fhos':
+                path = os.path.join(_tmpdir(), 'f_%d.img' % (hash_list(buf) ^ len(buf)))
+                if not os.path.exists(path):
+                    with open(path, 'wb') as fh:
+                        fh.write(buf)
+                raw = open(path, 'rb')
+                opened.append(raw)
+                f = TRawW(raw, hid)
+            else:
+                raise ValueError('unknown scenario ' + str(d['scn']))
+            proxies = [TProxy(f, spec, mmap=bool(d['mmap']), order=order)]
+            shares = []
+            for op in topo_of(d):
+                src = proxies[op[1]]
+                if op[0] == 'c':
+                    new = src.copy()
+                    shares.append(new._lock is src._lock)
+                elif op[0] == 'u':
+                    import copy as _copy
+                    new = _copy.copy(src)
+                elif op[0] == 'r':
+                    new = src.reshape(tuple(op[2]))
+                else:
+                    raise ValueError('unknown derivation ' + str(op))
+                proxies.append(new)
+            info['shares'] = all(shares)
+            info['copy_fh_same'] = all(q.file_like is f for q in proxies)
+            info['lock_ids'] = [q._lock.id for q in proxies]
         else:
+            if topo_of(d):
+                raise ValueError('derived proxies are only generated in the handle scenarios')
             path = os.path.join(_tmpdir(), 'f_%d.img' % (hash_list(buf) ^ len(buf)))
             if not os.path.exists(path):
                 with open(path, 'wb') as fh:
                     fh.write(buf)
-            proxy = TProxy(path, spec, mmap=bool(d['mmap']), order=order, keep_file_open=True)
-            proxies = {'p': proxy}
+            proxies = [TProxy(path, spec, mmap=bool(d['mmap']), order=order, keep_file_open=True)]
 
         def mk(t):
             def fn():
                 for r in d['progs'][t]:
                     try:
-                        p = proxies[r['who']]
+                        p = proxies[who_of(r)]
                         idx = idx_of(r)
                         if r.get('outer'):
                             with p._lock:
@@ -564,7 +675,7 @@ def run_real(d, prefix):
     finally:
         _S = None
         ap.RLock, ap.openers = old
-        for o in TOpener.made:
+        for o in TOpener.made + locals().get('opened', []):
             try:
                 o.close()
             except Exception:
@@ -628,8 +739,13 @@ def run_raw(d, prefix):
 
 # ------------------------------------------------------------------ cases
 
+def fmt_topo(d):
+    return ','.join(op[0] + str(op[1]) + (':' + 'x'.join(map(str, op[2])) if op[0] == 'r' else '')
+                    for op in topo_of(d)) or '-'
+
+
 def fmt_read(r):
-    return '%s%s=%s' % (r['who'], 'L' if r.get('outer') else '',
+    return 'p%d%s=%s' % (who_of(r), 'L' if r.get('outer') else '',
                         'W' if r['idx'] == 'W' else fmt_idx(tuple(item_from_data(i) for i in r['idx'])))
 
 
@@ -643,9 +759,10 @@ def mk_case(d, stream='dfs', completed=None):
         n = int(np.prod(d['shape'], dtype=object))
         flen = d['off'] + n * d['isz'] + d.get('extra', 0)
         progs = '|'.join('/'.join(fmt_read(r) for r in th) or '-' for th in d['progs'])
-        line = 'C14 run %s %d %s %d %d %d %s %s %s' % (
-            d['scn'], d['mmap'], d['order'], d['isz'], d['off'], flen, ','.join(map(str, d['shape'])), progs, sched)
-        cfgkey = (d['scn'], d['mmap'], d['order'], d['isz'], tuple(d['shape']), progs)
+        line = 'C14 run %s %d %s %d %d %d %s %s %s %s' % (
+            d['scn'], d['mmap'], d['order'], d['isz'], d['off'], flen, ','.join(map(str, d['shape'])),
+            fmt_topo(d), progs, sched)
+        cfgkey = (d['scn'], d['mmap'], d['order'], d['isz'], tuple(d['shape']), fmt_topo(d), progs)
     key = None
     if completed is not None and _switches(completed[0], completed[1]):
         key = (cfgkey, tuple(completed[0]))
@@ -710,32 +827,56 @@ def random_prefix(rng, n, length, wild):
 
 S_ = slice
 LAYOUTS = {
-    # name: (shape, isz, off, order, extra, reads{kind: [indices]})
+    # name: (shape, isz, off, order, extra, reads{kind: [indices]}, reshape targets)
+    # kinds: multi = several segments; single = one segment inside the data; whole = the whole-array path of
+    # _get_unscaled; full1 = NOT the whole-array path but ONE segment covering all the data (read_segments'
+    # single-segment branch); single0 = one segment starting exactly at the data offset; empty = no segment
     'F45': ((45, 4, 3), 2, 16, 'F', 0, {
         'multi': [(S_(None), 2, S_(None)), (S_(None), 1, S_(1, 3)), (S_(None), -1, S_(None, None, -1))],
         'single': [(Ellipsis, 1), (S_(None), S_(None), 2), (S_(2, 9), 1, 0), (3, 2, 1)],
         'whole': ['W', (Ellipsis,), (S_(None), S_(None), S_(None)), ()],
-    }),
+        'full1': [(None,), (None, Ellipsis), (S_(None, None, -1),), (Ellipsis, None)],
+        'single0': [(Ellipsis, 0), (S_(0, 9), 0, 0), (0, 0, 0)],
+        'empty': [(S_(0, 0),), (Ellipsis, S_(2, 2))],
+    }, [(45, 12), (180, 3), (540,)]),
     'C90': ((3, 4, 90), 1, 0, 'C', 5, {
         'multi': [(S_(None), 2, S_(None)), (S_(0, 2), 3, S_(None)), (S_(None, None, 2), 0)],
         'single': [(1,), (2, S_(None), S_(None)), (0, 1, S_(10, 20))],
         'whole': ['W', (Ellipsis,), (S_(None),)],
-    }),
+        'full1': [(None,), (Ellipsis, S_(None, None, -1)), (Ellipsis, None)],
+        'single0': [(0,), (0, 0, S_(0, 20))],
+        'empty': [(S_(1, 1),)],
+    }, [(12, 90), (3, 360)]),
     'F90': ((90, 4, 3), 1, 0, 'F', 5, {
         'multi': [(S_(None), 2, S_(None)), (S_(None), 3, S_(0, 2)), (S_(None), 0, S_(None, None, 2))],
         'single': [(Ellipsis, 1), (S_(None), S_(None), 2), (S_(10, 20), 1, 0)],
         'whole': ['W', (Ellipsis,), (S_(None),)],
-    }),
+        'full1': [(None,), (S_(None, None, -1),), (Ellipsis, None)],
+        'single0': [(Ellipsis, 0), (S_(0, 20), 0, 0)],
+        'empty': [(S_(3, 3),)],
+    }, [(90, 12), (360, 3)]),
     'tiny': ((2, 3, 4), 2, 7, 'F', 0, {
         'multi': [(1, S_(None), 2), (S_(None), 1)],
         'single': [(0,), (S_(None), S_(None), 1)],
         'whole': ['W', (Ellipsis,)],
-    }),
+        'full1': [(None,), (S_(None, None, -1),)],
+        'single0': [(Ellipsis, 0), (0, 0, 0)],
+        'empty': [(S_(0, 0),)],
+    }, [(6, 4), (2, 12), (24,)]),
+}
+# reads valid for ANY shape (used through reshaped proxies, whose shape differs from the layout's)
+ANYSHAPE = {
+    'multi': [(S_(None, None, 2),), (S_(1, None, 3),)],
+    'single': [(S_(1, 3),), (1,), (Ellipsis, 1)],
+    'whole': ['W', (Ellipsis,), ()],
+    'full1': [(None,), (S_(None, None, -1),), (Ellipsis, None)],
+    'single0': [(S_(0, 2),), (Ellipsis, 0)],
+    'empty': [(S_(0, 0),)],
 }
 
 
 def base_cfg(layout, scn, mmap, progs):
-    shape, isz, off, order, extra, _ = LAYOUTS[layout]
+    shape, isz, off, order, extra = LAYOUTS[layout][:5]
     return {'op': 'run', 'scn': scn, 'mmap': int(mmap), 'order': order, 'isz': isz, 'off': off, 'extra': extra,
             'shape': list(shape), 'progs': progs}
 
@@ -750,23 +891,63 @@ def gen_progs(rng, layout, kinds_per_thread, scn, outer_p=0.0):
         th = []
         for k in kinds:
             who = 'p'
-            if scn == 'fh' and rng.random() < 0.5:
+            if scn.startswith('fh') and rng.random() < 0.5:
                 who = 'c'
             th.append(rd(who, pick(rng, layout, k), outer=rng.random() < outer_p))
         progs.append(th)
-    if scn == 'fh' and len(progs) > 1 and all(r['who'] == progs[0][0]['who'] for th in progs for r in th):
+    if scn.startswith('fh') and len(progs) > 1 and all(r['who'] == progs[0][0]['who'] for th in progs for r in th):
         progs[-1][0]['who'] = 'c' if progs[0][0]['who'] == 'p' else 'p'    # always mix proxy and copy
     return progs
 
 
+def gen_topo_progs(rng, layout, topo, readers_per_thread, kinds=None, outer_p=0.0):
+    """reads through explicitly chosen proxies of a derivation history (`readers_per_thread`: per thread the
+    list of proxy numbers it reads through); indices fit the shape of the proxy used"""
+    reshaped = set()
+    for k, op in enumerate(topo):
+        if op[0] == 'r' or op[1] in reshaped:
+            reshaped.add(k + 1)
+    progs = []
+    for readers in readers_per_thread:
+        th = []
+        for who in readers:
+            kind = rng.choice(kinds or KINDS2)
+            pool = ANYSHAPE[kind] if who in reshaped else LAYOUTS[layout][5][kind]
+            th.append(rd(who, rng.choice(pool), outer=rng.random() < outer_p))
+        progs.append(th)
+    return progs
+
+
+# derivation histories: (history builder given the layout's reshape targets, reader sets worth racing)
+def topologies(rng, layout):
+    rs = LAYOUTS[layout][6]
+    r = lambda src: ['r', src, list(rng.choice(rs))]
+    return [
+        # two copies of one proxy
+        ([['c', 0], ['c', 0]], [(1, 2), (0, 2), (0, 1, 2)]),
+        # a copy of a copy
+        ([['c', 0], ['c', 1]], [(0, 2), (1, 2), (0, 1, 2)]),
+        # a chain of three copies, and copies of different generations
+        ([['c', 0], ['c', 1], ['c', 2], ['c', 0]], [(0, 3), (3, 4), (2, 4)]),
+        # reshape, then copies of the reshaped proxy: {1, 2, 3} is a family of its own
+        ([r(0), ['c', 1], ['c', 2]], [(1, 2), (2, 3), (1, 3)]),
+        # copy then reshape of the copy: {0, 1} share, 2 has a new lock (cross-family: correspondence only)
+        ([['c', 0], r(1)], [(0, 1), (0, 2), (1, 2)]),
+        # copy.copy()/unpickle: new lock over the same handle; its own copies share with it
+        ([['u', 0], ['c', 1]], [(1, 2), (0, 1), (0, 2)]),
+        ([['c', 0], ['u', 1], ['c', 2], ['c', 0]], [(2, 3), (0, 4), (1, 4), (0, 3)]),
+    ]
+
+
 KINDS = ['multi', 'single', 'whole']
+KINDS2 = KINDS + ['full1', 'single0', 'empty']
 
 
 def layouts_for(scn, tiny=True):
-    # ArrayProxy.copy() does not pass `order` on (the copy reads with the class default 'F'), so the
-    # C-ordered layout is only used where no copy is involved
+    # (ArrayProxy.copy()/reshape() pass `order` on since the fix commits 3de97f7d / 2a1f651d, so the C-ordered
+    # layout is used with copies as well)
     ls = ['F45', 'F90'] + (['tiny'] if tiny else [])
-    return ls + ['C90'] if scn == 'keep' else ls
+    return ls + ['C90']
 
 
 def cases(rng, tier):
@@ -838,6 +1019,53 @@ def cases(rng, tier):
                   for _ in range(rng.choice([1, 2]))] for _ in range(nt)]
         cfg = {'op': 'raw', 'flen': flen, 'calls': calls}
         add(cfg, 'raw-segs', 2, 100 if thorough else 40)
+    # ---- G: lock topology after SEQUENCES of copy() / reshape() / copy.copy(): concurrent reads through any
+    #         two or three proxies of the history (same family: oracle + correspondence; mixed: correspondence)
+    limG = 400 if thorough else 22
+    for rep in range(3 if thorough else 1):
+        for scn in ('fh', 'fhos') if thorough else ('fh',):
+            layout = rng.choice(layouts_for(scn))
+            for topo, reader_sets in topologies(rng, layout):
+                for readers in (reader_sets if thorough else rng.sample(reader_sets, 2)):
+                    per_thread = [[w] + ([rng.choice(readers)] if rng.random() < 0.25 else []) for w in readers]
+                    progs = gen_topo_progs(rng, layout, topo, per_thread, outer_p=0.1)
+                    cfg = dict(base_cfg(layout, scn, rng.randrange(2), progs), topo=topo)
+                    add(cfg, 'topo', 3 if thorough else 2, limG)
+    # ---- H: kinds of handle the caller may supply: BytesIO (np.memmap rejects it: fileno() raises), an object
+    #         without fileno/readinto (AttributeError inside np.memmap; `read` + copy branch), a real OS file
+    #         object (np.memmap succeeds) — whole-array reads with the DEFAULT mmap=True racing sliced reads
+    limH = 600 if thorough else 36
+    for scn in ('fh', 'fhmin', 'fhos'):
+        for mm in (1, 0):
+            for ka, kb in (('whole', 'multi'), ('whole', 'single'), ('whole', 'whole'), ('whole', 'full1')):
+                if mm == 0 and not thorough and kb in ('whole', 'full1'):
+                    continue
+                layout = rng.choice(layouts_for(scn, thorough))
+                add(base_cfg(layout, scn, mm, gen_progs(rng, layout, [[ka], [kb]], scn)), 'handle-kind',
+                    3 if thorough else 2, limH)
+    # ---- K: single-segment shapes of read_segments: one segment covering ALL the data (not the whole-array
+    #         path), a segment starting at the data offset, no segment at all — against each other kind
+    limK = 500 if thorough else 30
+    for ka in ('full1', 'single0', 'empty'):
+        for kb in KINDS2 if thorough else rng.sample(KINDS2, 3):
+            scn = rng.choice(['fh', 'fhmin', 'fhos', 'keep'])
+            layout = rng.choice(layouts_for(scn))
+            add(base_cfg(layout, scn, rng.randrange(2), gen_progs(rng, layout, [[ka], [kb]], scn)), 'seg-kinds',
+                3 if thorough else 2, limK)
+    # ---- R: random schedules over random histories, handle kinds and all read kinds
+    nR = 1200 if thorough else 150
+    for _ in range(nR):
+        scn = rng.choice(['fh', 'fh', 'fhmin', 'fhos'])
+        layout = rng.choice(layouts_for(scn))
+        topo, reader_sets = rng.choice(topologies(rng, layout))
+        nt = rng.choice([2, 2, 3])
+        readers = rng.choice(reader_sets)
+        per_thread = [[rng.choice(readers) for _ in range(rng.choice([1, 1, 2]))] for _ in range(nt)]
+        progs = gen_topo_progs(rng, layout, topo, per_thread, outer_p=0.15)
+        cfg = dict(base_cfg(layout, scn, rng.randrange(2), progs), topo=topo)
+        d = dict(cfg, sched=random_prefix(rng, nt, rng.randrange(0, 60), True), stream='random-topo')
+        _, sched, enabled, _ = run_real(d, d['sched'])
+        out.append(mk_case(d, 'random-topo', (sched, enabled)))
     return out
 
 
@@ -851,18 +1079,31 @@ def impl(case):
 
 
 def expected_results(d):
-    """single-threaded reference, independent of nibabel: NumPy indexing of the stored element numbers"""
+    """single-threaded reference, independent of nibabel: NumPy indexing of the stored element numbers
+    (viewed with the shape of the proxy the read goes through)"""
     shape, isz, order = tuple(d['shape']), d['isz'], d['order']
     n = int(np.prod(shape, dtype=object))
-    full = (np.arange(n, dtype=np.int64) % (256 ** isz)).reshape(shape, order=order)
+    shapes = proxy_shapes(d)
+    base = np.arange(n, dtype=np.int64) % (256 ** isz)
     exp = []
     for th in d['progs']:
         e = []
         for r in th:
             idx = idx_of(r)
+            full = base.reshape(tuple(shapes[who_of(r)]), order=order)
             e.append(fmt_res(full if idx is None else full[idx], order))
         exp.append('/'.join(e))
     return exp
+
+
+def one_family(d):
+    """do all reads of the case go through proxies of ONE copy()-family?  Property C14 speaks about a proxy
+    and proxies copied from it; proxies made by reshape() / copy.copy() / unpickling take a new lock over the
+    same handle (documented observation, outside the property) — for cases mixing families only the
+    correspondence with the model (which predicts the interference exactly) is checked."""
+    fam = families(d)
+    used = {fam[who_of(r)] for th in d['progs'] for r in th}
+    return len(used) <= 1
 
 
 def trace_positions(events):
@@ -899,6 +1140,13 @@ def oracle(case, out):
         return trace_positions(out.split(' '))
     trace, _, res = out.partition(' | ')
     got = res.split(';')
+    if d['scn'].startswith('fh'):
+        if not info.get('shares', False):
+            return 'copy() of a proxy over an open file handle does not share the lock object'
+        if not info.get('copy_fh_same', True):
+            return 'a derived proxy does not refer to the same file handle object'
+        if not one_family(d):
+            return None
     exp = expected_results(d)
     for t, (g, e) in enumerate(zip(got, exp)):
         if g != e:
@@ -910,8 +1158,6 @@ def oracle(case, out):
     if bad:
         return bad + '; progs=%s completed schedule=%s' % ([[fmt_read(r) for r in th] for th in d['progs']],
                                                           info.get('sched'))
-    if d['scn'] == 'fh' and not info.get('shares', False):
-        return 'copy() of a proxy over an open file handle does not share the lock object'
     return None
 
 
